@@ -965,7 +965,7 @@ static void oracleC04(Session &s)
 struct Policy {
     std::string name;
     bool tls = false;
-    char auth = 'p';        // p: SASL PLAIN, s: SASL SCRAM, 2: SASL2 PLAIN + bind2 (sm/csi inline), b: SASL2 PLAIN then classic bind, l: legacy XEP-0078
+    char auth = 'p';        // p: SASL PLAIN, s: SASL SCRAM, 2: SASL2 PLAIN + bind2 (sm/csi inline), b: SASL2 PLAIN then classic bind, l: legacy XEP-0078 (pre-1.0 header), f: XEP-0078 offered as a feature
     int sm = 0;             // 0 none, 1 offered, <enabled/> without resume, 2 offered, resumable
     bool resumeOk = true;   // answer <resume/> with <resumed/> (else <failed/>)
     bool csi = false;
@@ -984,6 +984,7 @@ struct Conforming {
         if (needFeatures) {
             needFeatures = false;
             if (p.auth == 'l' && !authed) return "";   // the client asks for the fields by itself
+            if (p.auth == 'f' && !authed) return "feat a1";   // XEP-0078 advertised as a stream feature (version 1.0 header)
             if (p.tls && !tlsDone) return "feat t1";
             if (!authed) {
                 if (p.auth == 'p') return "feat mp";
@@ -1034,6 +1035,7 @@ static std::vector<Policy> policies()
     add("sasl2-bind2-smr-noresume", false, '2', 2, false, false, -1);
     add("sasl2-classicbind", false, 'b', 1, true, false, -1);
     add("legacy", false, 'l', 0, true, false, -1);
+    add("legacy-feature", false, 'f', 0, true, false, -1);
     add("redirect-first", false, 'p', 0, true, false, 1);
     add("tls-redirect", true, 'p', 0, true, false, 4);
     add("redirect-in-session", false, 'p', 0, true, false, -2);
@@ -1120,7 +1122,8 @@ static AttemptResult runAttempt(Session &s, const Policy &p, int cut, bool sendI
         }
         // client state indication may only be sent to a server that advertised it on THIS connection (a resumed session keeps
         // the features of the session it resumes)
-        if (auto k = w.conn(); k && k->csiSent && !k->sawCsiFeature && !srv.resumedNow) fail("C10:csi-state-sent-without-csi-feature", s.replay());
+        if (auto k = w.conn(); k && k->csiSent && !k->sawCsiFeature && !srv.resumedNow)
+            fail(std::string("C10:csi-state-sent-without-csi-feature") + (k->sawVersionlessHeader ? "" : ":after-legacy-auth-feature"), s.replay());
         else oraclePass()++;
         // a session that was not resumed cannot answer the requests of the old one: they must be finished by now
         if (res.connectedSeen && !srv.resumedNow) {
@@ -1162,7 +1165,7 @@ static void exploreC10(Runner &r, Rng &rng, bool thorough)
     struct Pair { const char *p1; int cut; const char *p2; int cfg; };
     for (Pair pr : { Pair { "legacy", -1, "sasl-bind", 0 }, Pair { "tls-redirect", -1, "sasl-bind", 0 }, Pair { "redirect-in-session", -1, "sasl-bind", 0 },
                      Pair { "sasl2-bind2-smr", 3, "sasl-bind-smr", 1 }, Pair { "sasl2-bind2-smr", 3, "sasl-bind-smr", 0 },
-                     Pair { "sasl-bind-smr", -1, "legacy", 1 } }) {
+                     Pair { "sasl-bind-smr", -1, "legacy", 1 }, Pair { "sasl-bind-smr", -1, "legacy-feature", 1 } }) {
         experiment(r.w.settleTimeouts, nullptr, [&]() {
             Session s(r, cfgs[size_t(pr.cfg)]);
             bool resumable = false;   // does the client hold a resumable stream (from the scripts' point of view); survives failed attempts
